@@ -52,9 +52,9 @@ func init() {
 		},
 		TimeoutSec: func(t string) int {
 			if t == ev.Thorough {
-				return 3000
+				return 7200
 			}
-			return 600
+			return 900
 		},
 		Run: run,
 	})
@@ -321,6 +321,8 @@ func (h *hist) checkTransition(prev, cur *icon.Obs, b *icon.Block) (interesting 
 	return interesting || f.NSuccess > 0
 }
 
+// VERIF_C34_DEBUG=<account name> (e.g. user0) dumps every operation and that account's state to the
+// batch .out file; a development aid that does not influence the run.
 var debug = os.Getenv("VERIF_C34_DEBUG") != ""
 
 // script adds two fixed scenarios to the first blocks of every history: an
